@@ -8,4 +8,5 @@ AllActs == {"proposal", "prepare", "commit", "rc", "decided"}
 LeaderActs == {"proposal", "prepare", "commit"}
 RCActs == {"rc"}
 DecidedActs == {"decided"}
+RelabelActs == {"relabel", "prepare"}
 =============================================================================
